@@ -2776,3 +2776,37 @@ M("C05", "rotate-restarts-walked-path", WALK,
   "    if previous_puml_node == logic_list[-1].start_node:\n        previous_puml_node, previous_node_class = handle_logic_list_next_path(",
   "    if previous_puml_node != logic_list[-1].end_node:\n        previous_puml_node, previous_node_class = handle_logic_list_next_path(",
   "R5.16", "a path that was already walked is started again after a rotation")
+
+# ---- R7.21 neighbourhood / reachability helpers
+M("C07", "innodes-returns-inside", UT,
+  "        edge[0]\n        for edge in graph.in_edges(nodes)\n        if edge[0] not in nodes_to_check\n    )",
+  "        edge[0]\n        for edge in graph.in_edges(nodes)\n        if edge[0] in nodes_to_check\n    )",
+  "R7.21", "predecessors INSIDE the set are returned")
+M("C07", "innodes-returns-heads", UT,
+  "    return set(\n        edge[0]\n        for edge in graph.in_edges(nodes)\n        if edge[0] not in nodes_to_check",
+  "    return set(\n        edge[1]\n        for edge in graph.in_edges(nodes)\n        if edge[0] not in nodes_to_check",
+  "R7.21", "the heads of the in-edges instead of their tails")
+M("C07", "outedges-in-set-tests-tail", UT,
+  "        for edge in graph.out_edges(nodes)\n        if edge[1] in nodes_to_check",
+  "        for edge in graph.out_edges(nodes)\n        if edge[0] in nodes_to_check",
+  "R7.21", "membership tested on the node itself, not on its successor")
+M("C07", "path-back-direction", UT,
+  "        if nx.has_path(graph, node_to_find_path_from, node):",
+  "        if nx.has_path(graph, node, node_to_find_path_from):",
+  "R7.21", "reachability asked in the other direction")
+M("C07", "without-path-yields-with-path", UT,
+  "        if not has_path_back_to_chosen_nodes(\n            node, nodes_to_find_path_from, graph\n        ):\n            yield node",
+  "        if has_path_back_to_chosen_nodes(\n            node, nodes_to_find_path_from, graph\n        ):\n            yield node",
+  "R7.21", "the nodes WITH a path are reported for pruning")
+T("C07", "twin-innodes-nested-loops", UT,
+  "    return set(\n        edge[0]\n        for edge in graph.in_edges(nodes)\n        if edge[0] not in nodes_to_check\n    )",
+  "    found = set()\n    for node in nodes:\n        for pred in graph.predecessors(node):\n            if pred in nodes_to_check:\n                continue\n            found.add(pred)\n    return found",
+  "nested loops with a guard clause instead of the edge-list comprehension")
+T("C07", "twin-path-back-any", UT,
+  "    for node_to_find_path_from in nodes_to_find_path_from:\n        if nx.has_path(graph, node_to_find_path_from, node):\n            return True\n    return False",
+  "    return any(\n        nx.has_path(graph, chosen, node) for chosen in nodes_to_find_path_from\n    )",
+  "any() instead of the search loop")
+T("C07", "twin-outedges-unpacked", UT,
+  "    return set(\n        edge[0]\n        for edge in graph.out_edges(nodes)\n        if edge[1] in nodes_to_check\n    )",
+  "    return {tail for tail, head in graph.out_edges(nodes) if head in nodes_to_check}",
+  "tuple unpacking + set comprehension")
